@@ -50,8 +50,30 @@ def postOutcome? (s : String) : Option (Nat → Stage Response × Nat) :=
   `post read1 mkFaultMsg serFault dispatch serResp read2 mkReply serReply`  ->  `ret <status> <reason> <body> calls=<n>` | `escape <exc> calls=<n>`
   `get parse handle`
   `POST readBody hasDispatcher lookup post`     `GET hasDispatcher lookup get`   (get = `ok:<n>` | `err` | exception escaping do_get) -/
+def item? (s : String) : Option Item :=
+  match s.splitOn "=" with
+  | [i, o] => do pure ⟨← i.toNat?, ← unitStage? o⟩
+  | _ => none
+
+/-- `deferred cap op op …` with op = `<id>=<outcome>` (post) | `w` (one worker pass)  ->  handled ids, queue length, alive, #blocked puts -/
+def runDeferred (cap : Nat) (ops : List String) : Option String := do
+  let mut s : DState := ⟨[], [], true⟩
+  let mut blocked := 0
+  for o in ops do
+    if o = "w" then
+      s := (dstep cap s .work).1
+    else
+      let it ← item? o
+      let r := dstep cap s (.post it)
+      s := r.1
+      if r.2 then blocked := blocked + 1
+  pure s!"handled={Io.natList s.handled} queue={s.queue.length} alive={s.alive} blocked={blocked}"
+
 def stepLine (st : Unit) (line : String) : Unit × String :=
   match Io.words line with
+  | "deferred" :: cap :: ops => match cap.toNat? with
+    | some c => (st, (runDeferred c ops).getD "bad-op")
+    | none => (st, "bad-op")
   | ["post", a, b, c, d, e, f, g, h] =>
     match unitStage? a, unitStage? b, natStage? c, unitStage? d, natStage? e, unitStage? f, unitStage? g, natStage? h with
     | some a, some b, some c, some d, some e, some f, some g, some h =>
